@@ -14,13 +14,14 @@ use crate::{
         input_json_extensions::InputJsonExtensions, input_plugin::InputPlugin, InputPluginError,
     },
 };
+use geo::Centroid;
 use geo_types::Coord;
 use routee_compass_core::{
     model::network::edge_id::EdgeId,
     model::unit::{as_f64::AsF64, Distance, DistanceUnit, BASE_DISTANCE_UNIT},
     util::{
         fs::{read_decoders, read_utils},
-        geo::geo_io_utils::read_linestring_text_file,
+        geo::{geo_io_utils::read_linestring_text_file, haversine},
     },
 };
 use rstar::RTree;
@@ -189,7 +190,15 @@ fn search(
     vehicle_parameters: &Option<VehicleParameters>,
 ) -> Result<Option<EdgeId>, InputPluginError> {
     let point = geo::Point(coord);
-    for (record, distance_meters) in rtree.nearest_neighbor_iter_with_distance_2(&point) {
+    for record in rtree.nearest_neighbor_iter(&point) {
+        // the tree ranks candidates by squared coordinate distance (degrees); the tolerance
+        // is a length, so measure the great-circle distance to the same reference point
+        let distance_meters = match (tolerance, record.geometry.centroid()) {
+            (Some(_), Some(centroid)) => haversine::coord_distance_meters(&coord, &centroid.0)
+                .map_err(InputPluginError::InputPluginFailed)?
+                .as_f64() as f32,
+            _ => 0.0,
+        };
         if !within_tolerance(tolerance, &distance_meters) {
             return Ok(None);
         }
